@@ -2,11 +2,16 @@ import H2.Client.Recv
 /-!
 # C14 (client half) — the client hands receive-window credit back
 
-Serial model of the read loop's DATA branch (`readStream`). The connection window is topped back up to
-its maximum as soon as less than half is left, so the server's outstanding (sent, not credited) octets
-never exceed half the window plus one frame **on streams the client still waits on**. DATA on a stream it
-no longer waits on is not counted at all, and a padded empty DATA frame gets no stream credit: finding
-F39, known; `C14c_full` is the statement without that exclusion and `F39_witness_*` refute it.
+Serial model of the read loop's DATA path. `readLoop` counts **every** DATA frame against the connection
+window before it looks for the request waiting on the stream (`consumeConnWindow`): the window is topped
+back up to its maximum as soon as less than half is left, so the server's outstanding (sent, not credited)
+octets never exceed half the window, whether the stream is still waited on, was reset, timed out or has
+finished. `readStream` credits the stream with the whole frame, padding included, whenever the frame is
+not empty.
+
+History: until the repair of F39 the connection window was only touched behind the stream lookup and the
+stream credit was tied to the frame carrying data; `C14c_full` was refuted then (`C14c_full_fails`,
+`F39_witness_*`). Those inputs are now the regression examples at the end of the file.
 -/
 namespace H2.Props.C14c
 
@@ -18,95 +23,252 @@ def dataFrame (sid len : Nat) (es : Bool) (d : Bytes) : Frame.Frame :=
 /-- outstanding connection credit as the server sees it -/
 def outstanding (c : Conn) : Int := maxWindow - c.currentWindow
 
-/-- **credit_conservation (connection)**: processing a DATA frame of `len` octets (padding included) on a
-stream the client waits on moves the receive ledger by exactly `len` minus what is credited back, and what
-is left outstanding is at most half the window -/
-theorem conn_credit_conservation (c : Conn) (tag : String) (r : Req) (sid len : Nat) (es : Bool) (d : Bytes)
-    (hsid : sid ≠ 0) (h0 : c.currentWindow ≤ maxWindow) (hlen : (len : Int) ≤ c.currentWindow) :
-    let c' := (readStream c tag r (dataFrame sid len es d)).1
-    outstanding c' + connCredit (c'.outQ.drop c.outQ.length) = outstanding c + len ∧
-    outstanding c' ≤ maxWindow / 2 := by
-  simp only [readStream, dataFrame, outstanding, queueOut]
-  by_cases hd : (d.length != 0) = true
-  · simp only [hd, if_true]
-    split
-    · simp [connCredit, updReq, maxWindow, Gen.c_clientMaxWindow, hsid] at *; omega
-    · simp [connCredit, updReq, maxWindow, Gen.c_clientMaxWindow, hsid] at *; omega
-  · simp only [hd, Bool.false_eq_true, if_false]
-    split
-    · simp [connCredit, maxWindow, Gen.c_clientMaxWindow] at *; omega
-    · simp [connCredit, maxWindow, Gen.c_clientMaxWindow] at *; omega
+/-- frames queued by a step -/
+def newOut (c c' : Conn) : List OutFrame := c'.outQ.drop c.outQ.length
 
-/-- **no_zero_increment**: the connection increment is more than half the window, the stream increment is
-the length of a frame that carried data -/
-theorem increments_positive (c : Conn) (tag : String) (r : Req) (sid len : Nat) (es : Bool) (d : Bytes)
-    (hdl : d.length ≤ len) (h0 : c.currentWindow ≤ maxWindow) :
-    ∀ f ∈ (readStream c tag r (dataFrame sid len es d)).1.outQ.drop c.outQ.length,
+theorem finish_outQ (c : Conn) (tag : String) (sid : Nat) (e : Err) :
+    (finish c tag sid e).outQ = c.outQ ∧ (finish c tag sid e).currentWindow = c.currentWindow := by
+  simp only [finish, resolve, updReq, deletePending, takeReq]
+  split <;> exact ⟨rfl, rfl⟩
+
+theorem settle_ledger (c : Conn) (tag : String) (sid : Nat) (err : Option Err) (endS : Bool) :
+    (settle c tag sid err endS).1.outQ = c.outQ ∧ (settle c tag sid err endS).1.currentWindow = c.currentWindow := by
+  simp only [settle]
+  split
+  · split
+    · exact finish_outQ _ _ _ _
+    · exact ⟨rfl, rfl⟩
+  · exact finish_outQ _ _ _ _
+
+theorem readStream_data (c : Conn) (tag : String) (r : Req) (sid len : Nat) (es : Bool) (d : Bytes) :
+    (readStream c tag r (dataFrame sid len es d)).1.outQ = c.outQ ++ (if len != 0 then [.windowUpdate sid len] else []) ∧
+    (readStream c tag r (dataFrame sid len es d)).1.currentWindow = c.currentWindow ∧
+    (readStream c tag r (dataFrame sid len es d)).2 = none := by
+  simp only [readStream, dataFrame, queueOut, updReq]
+  by_cases hd : (d.length != 0) = true <;> by_cases hl : (len != 0) = true <;> simp [hd, hl]
+
+/-- what `dispatch` does with a DATA frame, as far as the receive ledger goes: the connection window is
+left alone, at most the stream's WINDOW_UPDATE is queued -/
+theorem dispatch_data (c : Conn) (sid len : Nat) (es : Bool) (d : Bytes) :
+    (dispatch c (dataFrame sid len es d)).1.currentWindow = c.currentWindow ∧
+    ((dispatch c (dataFrame sid len es d)).1.outQ = c.outQ ∨
+     (len ≠ 0 ∧ (dispatch c (dataFrame sid len es d)).1.outQ = c.outQ ++ [.windowUpdate sid len])) := by
+  unfold dispatch
+  split
+  · exact ⟨rfl, .inl rfl⟩
+  · split
+    · exact ⟨rfl, .inl rfl⟩
+    · split
+      · exact ⟨rfl, .inl rfl⟩
+      · rename_i tag _ _ r _ _
+        have hp : (prepare c (dataFrame sid len es d)).1 = c := by
+          simp [prepare, noteHeaders, endsBlock, dataFrame, Gen.c_FrameData, Gen.c_FrameHeaders, Gen.c_FrameContinuation]
+        rcases hpq : prepare c (dataFrame sid len es d) with ⟨c0, endS⟩
+        rw [hpq] at hp
+        simp only at hp
+        have hp' := hp.symm
+        subst hp'
+        have h := readStream_data c tag r sid len es d
+        rcases hrs : readStream c tag r (dataFrame sid len es d) with ⟨c1, e1⟩
+        rw [hrs] at h
+        obtain ⟨hq, hw, he⟩ := h
+        simp only at hq hw he
+        subst he
+        obtain ⟨sq, sw⟩ := settle_ledger c1 tag (dataFrame sid len es d).stream none endS
+        simp only [hrs]
+        rw [sq, sw, hq, hw]
+        refine ⟨rfl, ?_⟩
+        by_cases hl : (len != 0) = true
+        · right; exact ⟨by simpa using hl, by simp [hl]⟩
+        · left; simp [hl]
+
+theorem refuse_ledger (c : Conn) (sid : Nat) (tag : String) :
+    (refuse c sid tag).outQ = c.outQ ∧ (refuse c sid tag).currentWindow = c.currentWindow := by
+  simp only [refuse]
+  split
+  · exact ⟨rfl, rfl⟩
+  · split
+    · exact ⟨rfl, rfl⟩
+    · exact finish_outQ _ _ _ _
+
+theorem refuseAbove_ledger (l : List (Nat × String)) :
+    ∀ c : Conn, (refuseAbove c l).outQ = c.outQ ∧ (refuseAbove c l).currentWindow = c.currentWindow := by
+  induction l with
+  | nil => intro c; exact ⟨rfl, rfl⟩
+  | cons p ps ih =>
+    intro c
+    obtain ⟨sid, tag⟩ := p
+    simp only [refuseAbove]
+    split
+    · obtain ⟨h1, h2⟩ := ih (refuse c sid tag)
+      obtain ⟨h3, h4⟩ := refuse_ledger c sid tag
+      exact ⟨h1.trans h3, h2.trans h4⟩
+    · exact ih c
+
+/-- failing the requests a GOAWAY leaves out does not touch the receive ledger -/
+theorem dispatchLoop_ledger (c : Conn) (f : Frame.Frame) :
+    (dispatchLoop c f).1.outQ = (dispatch c f).1.outQ ∧
+    (dispatchLoop c f).1.currentWindow = (dispatch c f).1.currentWindow := by
+  simp only [dispatchLoop, afterGoAway]
+  split
+  · exact refuseAbove_ledger _ _
+  · exact ⟨rfl, rfl⟩
+
+/-- `consumeConnWindow` moves the ledger by exactly `n` minus what it credits back, and leaves at most half
+the window outstanding -/
+theorem consume_conservation (c : Conn) (n : Nat) :
+    outstanding (consumeConnWindow c n) + connCredit (newOut c (consumeConnWindow c n)) = outstanding c + n ∧
+    outstanding (consumeConnWindow c n) ≤ maxWindow / 2 := by
+  simp only [consumeConnWindow, outstanding, newOut, queueOut]
+  split
+  · simp [connCredit, maxWindow, Gen.c_clientMaxWindow] at *; omega
+  · simp [connCredit, maxWindow, Gen.c_clientMaxWindow] at *; omega
+
+theorem consume_outQ (c : Conn) (n : Nat) : ∃ l, (consumeConnWindow c n).outQ = c.outQ ++ l := by
+  simp only [consumeConnWindow, queueOut]
+  split
+  · exact ⟨_, rfl⟩
+  · exact ⟨[], by simp⟩
+
+/-- the read loop's step on a DATA frame of a stream other than 0 -/
+theorem rdFrame_data (c : Conn) (sid len : Nat) (es : Bool) (d : Bytes) (hsid : sid ≠ 0) :
+    (rdFrame c (dataFrame sid len es d)).1 = (dispatchLoop (consumeConnWindow c len) (dataFrame sid len es d)).1 := by
+  simp [rdFrame, dataFrame, hsid]
+
+/-- the read loop's step on a DATA frame, as far as the receive ledger goes -/
+theorem loop_data (c : Conn) (sid len : Nat) (es : Bool) (d : Bytes) :
+    (dispatchLoop c (dataFrame sid len es d)).1.currentWindow = c.currentWindow ∧
+    ((dispatchLoop c (dataFrame sid len es d)).1.outQ = c.outQ ∨
+     (len ≠ 0 ∧ (dispatchLoop c (dataFrame sid len es d)).1.outQ = c.outQ ++ [.windowUpdate sid len])) := by
+  obtain ⟨h1, h2⟩ := dispatchLoop_ledger c (dataFrame sid len es d)
+  rw [h1, h2]
+  exact dispatch_data c sid len es d
+
+/-- full statement: every DATA frame the server sends, on whatever stream (waited on, reset, timed out,
+finished, never opened), is counted against the connection window and credited back -/
+def C14c_full : Prop :=
+  ∀ (c : Conn) (sid len : Nat) (es : Bool) (d : Bytes), sid ≠ 0 →
+    let c' := (rdFrame c (dataFrame sid len es d)).1
+    outstanding c' + connCredit (newOut c c') = outstanding c + len ∧ outstanding c' ≤ maxWindow / 2
+
+theorem drop_own_length {α} (a l : List α) : (a ++ l).drop a.length = l := by simp
+
+theorem connCredit_append (a b : List OutFrame) : connCredit (a ++ b) = connCredit a + connCredit b := by
+  simp [connCredit]
+
+/-- **credit_conservation (connection)**, at full strength -/
+theorem credit_conservation : C14c_full := by
+  intro c sid len es d hsid
+  simp only [rdFrame_data c sid len es d hsid]
+  obtain ⟨h1, h2⟩ := consume_conservation c len
+  obtain ⟨l, hl⟩ := consume_outQ c len
+  obtain ⟨hw, hq⟩ := loop_data (consumeConnWindow c len) sid len es d
+  have e1 : newOut c (consumeConnWindow c len) = l := by simp only [newOut, hl, drop_own_length]
+  rw [e1] at h1
+  have hout : outstanding (dispatchLoop (consumeConnWindow c len) (dataFrame sid len es d)).1 =
+      outstanding (consumeConnWindow c len) := by simp only [outstanding, hw]
+  rw [hout]
+  refine ⟨?_, h2⟩
+  rcases hq with hq | ⟨_, hq⟩
+  · have e2 : newOut c (dispatchLoop (consumeConnWindow c len) (dataFrame sid len es d)).1 = l := by
+      simp only [newOut, hq, hl, drop_own_length]
+    rw [e2]; exact h1
+  · have e2 : newOut c (dispatchLoop (consumeConnWindow c len) (dataFrame sid len es d)).1 = l ++ [.windowUpdate sid len] := by
+      simp only [newOut, hq, hl, List.append_assoc, drop_own_length]
+    rw [e2, connCredit_append]
+    have : connCredit [OutFrame.windowUpdate sid len] = 0 := by simp [connCredit, hsid]
+    omega
+
+/-- **stream credit**: a DATA frame on a stream the client waits on is credited on that stream with its
+whole length, padding included, also when it carries no data at all; an empty frame queues nothing -/
+theorem stream_credit (c : Conn) (tag : String) (r : Req) (sid len : Nat) (es : Bool) (d : Bytes) :
+    (readStream c tag r (dataFrame sid len es d)).1.outQ =
+      c.outQ ++ (if len != 0 then [.windowUpdate sid len] else []) :=
+  (readStream_data c tag r sid len es d).1
+
+/-- **no_zero_increment**: the connection increment is more than half the window, a stream increment is the
+length of a non-empty frame -/
+theorem increments_positive (c : Conn) (sid len : Nat) (es : Bool) (d : Bytes) (hsid : sid ≠ 0) :
+    ∀ f ∈ newOut c (rdFrame c (dataFrame sid len es d)).1,
       match f with
       | .windowUpdate _ inc => 0 < inc
       | _ => True := by
   intro f hf
-  simp only [readStream, dataFrame, queueOut] at hf
-  by_cases hd : (d.length != 0) = true
-  · have hdp : 0 < d.length := by simpa [Nat.pos_iff_ne_zero] using hd
-    simp only [hd, if_true] at hf
-    split at hf
-    · simp [updReq] at hf
-      rcases hf with rfl | rfl
-      · simp; omega
-      · simp [maxWindow, Gen.c_clientMaxWindow] at *; omega
-    · simp [updReq] at hf
-      subst hf; simp; omega
-  · simp only [hd, Bool.false_eq_true, if_false] at hf
-    split at hf
-    · simp at hf; subst hf
+  rw [rdFrame_data c sid len es d hsid] at hf
+  obtain ⟨_, hq⟩ := loop_data (consumeConnWindow c len) sid len es d
+  have hc : ∀ g ∈ newOut c (consumeConnWindow c len), match g with
+      | .windowUpdate _ inc => 0 < inc
+      | _ => True := by
+    intro g hg
+    simp only [consumeConnWindow, newOut, queueOut] at hg
+    split at hg
+    · simp at hg; subst hg
       simp [maxWindow, Gen.c_clientMaxWindow] at *; omega
-    · simp at hf
-
-/-- the window never goes above its maximum (2^20, far below 2^31-1) -/
-theorem never_above_max (c : Conn) (tag : String) (r : Req) (sid len : Nat) (es : Bool) (d : Bytes)
-    (h0 : c.currentWindow ≤ maxWindow) :
-    (readStream c tag r (dataFrame sid len es d)).1.currentWindow ≤ maxWindow := by
-  simp only [readStream, dataFrame, queueOut]
-  by_cases hd : (d.length != 0) = true
-  · simp only [hd, if_true]
-    split
-    · simp [updReq]
-    · simp [updReq]; omega
-  · simp only [hd, Bool.false_eq_true, if_false]
-    split
-    · simp
+    · simp at hg
+  obtain ⟨l, hl⟩ := consume_outQ c len
+  have e1 : newOut c (consumeConnWindow c len) = l := by simp only [newOut, hl, drop_own_length]
+  rw [e1] at hc
+  rcases hq with hq | ⟨hlen, hq⟩
+  · have e2 : newOut c (dispatchLoop (consumeConnWindow c len) (dataFrame sid len es d)).1 = l := by
+      simp only [newOut, hq, hl, drop_own_length]
+    rw [e2] at hf; exact hc f hf
+  · have e2 : newOut c (dispatchLoop (consumeConnWindow c len) (dataFrame sid len es d)).1 = l ++ [.windowUpdate sid len] := by
+      simp only [newOut, hq, hl, List.append_assoc, drop_own_length]
+    rw [e2] at hf
+    simp only [List.mem_append, List.mem_singleton] at hf
+    rcases hf with hf | rfl
+    · exact hc f hf
     · simp; omega
 
-/-! ## what is missing (F39, known) -/
+/-- the window never goes above its maximum (2^20, far below 2^31-1) -/
+theorem never_above_max (c : Conn) (sid len : Nat) (es : Bool) (d : Bytes) (hsid : sid ≠ 0)
+    (h0 : c.currentWindow ≤ maxWindow) :
+    (rdFrame c (dataFrame sid len es d)).1.currentWindow ≤ maxWindow := by
+  rw [rdFrame_data c sid len es d hsid, (loop_data _ sid len es d).1]
+  simp only [consumeConnWindow, queueOut]
+  split
+  · simp
+  · simp; omega
 
-/-- full statement: every DATA frame the server sends, on whatever stream, is counted against the
-connection window -/
-def C14c_full : Prop :=
-  ∀ (c : Conn) (sid len : Nat) (es : Bool) (d : Bytes), sid ≠ 0 → len > 0 →
-    let c' := (dispatch c (dataFrame sid len es d)).1
-    outstanding c' + connCredit (c'.outQ.drop c.outQ.length) = outstanding c + len
+/-! ## any sequence of DATA frames -/
 
-/-- DATA on a stream the client does not wait on (timed out, reset, finished) leaves the state as it was:
-neither counted nor credited -/
-theorem F39_witness_uncounted (c : Conn) (f : Frame.Frame) (h : lookupA c.reqQueued f.stream = none) :
-    (dispatch c f).1 = c := by
-  simp [dispatch, h]
+/-- the read loop over DATA frames `(stream, length, END_STREAM, data)` -/
+def recvAll (c : Conn) : List (Nat × Nat × Bool × Bytes) → Conn
+  | [] => c
+  | (sid, len, es, d) :: fs => recvAll (rdFrame c (dataFrame sid len es d)).1 fs
 
-theorem C14c_full_fails : ¬ C14c_full := by
-  intro h
-  have := h {} 1 10 false [1, 2, 3, 4, 5, 6, 7, 8, 9, 10] (by decide) (by decide)
-  simp [dispatch, dataFrame, lookupA, outstanding, connCredit] at this
-  omega
+/-- whatever the server sends and whatever has become of the streams, after every frame at most half the
+connection window is outstanding -/
+theorem never_starves (fs : List (Nat × Nat × Bool × Bytes)) (hs : ∀ x ∈ fs, x.1 ≠ 0) :
+    ∀ c, outstanding c ≤ maxWindow / 2 → outstanding (recvAll c fs) ≤ maxWindow / 2 := by
+  induction fs with
+  | nil => intro c h; exact h
+  | cons x xs ih =>
+    intro c _
+    obtain ⟨sid, len, es, d⟩ := x
+    have h1 : sid ≠ 0 := hs (sid, len, es, d) (by simp)
+    exact ih (fun y hy => hs y (by simp [hy])) _ (credit_conservation c sid len es d h1).2
 
-/-- a padded DATA frame with no data consumes stream window and gets no stream WINDOW_UPDATE -/
-theorem F39_witness_padded_empty (c : Conn) (tag : String) (r : Req) (sid len : Nat) (hw : ¬ c.currentWindow - len < maxWindow / 2) :
-    (readStream c tag r (dataFrame sid len false [])).1.outQ = c.outQ := by
-  simp [readStream, dataFrame, hw]
+/-! ## the inputs of finding F39, now regression examples -/
 
-/-- non-vacuity of `conn_credit_conservation`: a frame that triggers the top-up -/
-example : ∃ c : Conn, c.currentWindow ≤ maxWindow ∧ ((16384 : Nat) : Int) ≤ c.currentWindow ∧
-    connCredit ((readStream c "t" { tag := "t" } (dataFrame 1 16384 false [1])).1.outQ.drop c.outQ.length) > 0 :=
+/-- DATA on a stream the client does not wait on is counted: the ledger moves although `dispatch` finds nobody -/
+theorem F39_regression_counted (c : Conn) (sid len : Nat) (es : Bool) (d : Bytes) (hsid : sid ≠ 0)
+    (_h : lookupA c.reqQueued sid = none) :
+    let c' := (rdFrame c (dataFrame sid len es d)).1
+    outstanding c' + connCredit (newOut c c') = outstanding c + len :=
+  (credit_conservation c sid len es d hsid).1
+
+/-- the old counterexample: ten octets on stream 1 of a connection with no request -/
+example : outstanding (rdFrame {} (dataFrame 1 10 false [1, 2, 3, 4, 5, 6, 7, 8, 9, 10])).1 = 10 := by decide
+
+/-- a padded DATA frame with no data gets its stream WINDOW_UPDATE -/
+theorem F39_regression_padded_empty (c : Conn) (tag : String) (r : Req) (sid len : Nat) (hl : len ≠ 0) :
+    (readStream c tag r (dataFrame sid len false [])).1.outQ = c.outQ ++ [.windowUpdate sid len] := by
+  rw [stream_credit]; simp [hl]
+
+/-- non-vacuity: a frame on a stream nobody waits on triggers the top-up -/
+example : ∃ c : Conn, outstanding c ≤ maxWindow / 2 ∧ lookupA c.reqQueued 1 = none ∧
+    connCredit (newOut c (rdFrame c (dataFrame 1 16384 false [1])).1) > 0 :=
   ⟨{ currentWindow := 530000 }, by decide, by decide, by decide⟩
 
 end H2.Props.C14c
